@@ -44,9 +44,25 @@ Section Sim.
 
   Definition one (t : ty) (b : nat) : prog := I OP_lspace 0 0 TBool :: code t (S b).
 
+  (* arrays (and structs) are decoded in place through `index`: the interpreter reads the element that is there, the
+     binder substitutes the zero value for a missing one; they coincide on well-shaped destinations *)
+  Fixpoint shape (t : ty) (v : val) : Prop :=
+    match t with
+    | TArr n e => match v with VList vis hid => length vis = n /\ hid = [] /\ Forall (shape e) vis | _ => False end
+    | TSlice e => match v with VList vis hid => Forall (shape e) (vis ++ hid) | _ => True end
+    | TPtr e => match v with VPtr x => shape e x | _ => True end
+    | _ => True
+    end.
+
+  Lemma shape_zero : forall t, shape t (zero t).
+  Proof.
+    induction t; simpl; auto.
+    split; [apply repeat_length|]. split; [reflexivity|]. apply Forall_forall. intros x Hx. apply repeat_spec in Hx. subst x. exact IHt.
+  Qed.
+
   Definition Sim (t : ty) : Prop :=
     forall P pre post, P = pre ++ one t (length pre) ++ post ->
-    forall fuel s r, s_vt s = t -> valid (s_root s) (s_vp s) ->
+    forall fuel s r, s_vt s = t -> valid (s_root s) (s_vp s) -> shape t (cur s) ->
       ex fuel P (one t (length pre) ++ post) s = r -> r <> Unk -> spec t P post fuel s r.
 
   (* ---- the common head: lspace; is_null ---- *)
@@ -136,7 +152,7 @@ Section Sim.
 
   Lemma Sim_bool : Sim TBool.
   Proof.
-    intros P pre post EP fuel s r VT V H NU. unfold one in *. cbn [code app] in *.
+    intros P pre post EP fuel s r VT V SH H NU. unfold one in *. cbn [code app] in *.
     destruct (head _ _ _ _ _ _ H NU) as [[W E]|(c & r0 & fuel' & W & LE & [[SN Hx]|[SN Hx]])]; clear H.
     - subst r. apply spec_ws_nil. exact W.
     - assert (J : skipn (S (length pre) + 2) P = post) by (rewrite EP; apply exit3). rewrite J in Hx.
@@ -172,7 +188,7 @@ Section Sim.
 
   Lemma Sim_numt : forall t, is_numt t -> Sim t.
   Proof.
-    intros t T P pre post EP fuel s r VT V H NU. unfold one in *. rewrite (code_numt t _ T) in *. cbn [app] in *.
+    intros t T P pre post EP fuel s r VT V SH H NU. unfold one in *. rewrite (code_numt t _ T) in *. cbn [app] in *.
     destruct (head _ _ _ _ _ _ H NU) as [[W E]|(c & r0 & fuel' & W & LE & [[SN Hx]|[SN Hx]])]; clear H.
     - subst r. apply spec_ws_nil. exact W.
     - assert (J : skipn (S (length pre) + 2) P = post) by (rewrite EP; apply exit3). rewrite J in Hx.
@@ -196,7 +212,7 @@ Section Sim.
 
   Lemma Sim_str : Sim TStr.
   Proof.
-    intros P pre post EP fuel s r VT V H NU. unfold one in *. cbn [code app] in *.
+    intros P pre post EP fuel s r VT V SH H NU. unfold one in *. cbn [code app] in *.
     destruct (head _ _ _ _ _ _ H NU) as [[W E]|(c & r0 & fuel' & W & LE & [[SN Hx]|[SN Hx]])]; clear H.
     - subst r. apply spec_ws_nil. exact W.
     - assert (J : skipn (S (length pre) + 6) P = post).
@@ -237,7 +253,7 @@ Section Sim.
 
   Lemma Sim_any : Sim TAny.
   Proof.
-    intros P pre post EP fuel s r VT V H NU. unfold one in *. cbn [code app] in *.
+    intros P pre post EP fuel s r VT V SH H NU. unfold one in *. cbn [code app] in *.
     assert (JE : skipn (S (length pre) + 4) P = post).
     { rewrite EP. replace (S (length pre) + 4)%nat with (length pre + 5)%nat by lia.
       match goal with |- skipn _ (pre ++ ?l) = _ => change (pre ++ l) with (pre ++ (firstn 5 l) ++ post) end.
@@ -266,9 +282,24 @@ Section Sim.
   Fixpoint simf (t : ty) : bool :=
     match t with
     | TBool | TInt _ | TF32 | TF64 | TStr | TAny => true
-    | TPtr e | TSlice e => simf e
+    | TPtr e | TSlice e | TArr _ e => simf e
     | _ => false
     end.
+
+  Fixpoint noarr (t : ty) : bool :=
+    match t with
+    | TArr _ _ => false
+    | TPtr e | TSlice e => noarr e
+    | _ => true
+    end.
+
+  (* without arrays every value is well shaped *)
+  Lemma shape_noarr : forall t, noarr t = true -> forall v, shape t v.
+  Proof.
+    induction t; simpl; intros F v; try discriminate F; auto.
+    - destruct v; auto. apply Forall_forall. intros x _. apply IHt. exact F.
+    - destruct v; auto.
+  Qed.
 
   Lemma simf_ilf : forall t, simf t = true -> ilf t = true.
   Proof. induction t; simpl; intros H; try discriminate; auto. Qed.
@@ -311,6 +342,8 @@ Section Sim.
       unfold fres_val. destruct (f64_of_text text) as [[|]|]; discriminate.
     - cbn [sonic_bind]. destruct j; try discriminate. destruct (sunq Jit o body); discriminate.
     - (* slice *) cbn [sonic_bind]. destruct j; try discriminate. destruct l; [discriminate|]. cbn [is_opt].
+      apply rbind_no_unk; [|discriminate]. apply bind_elems_no_unk. intros j' v'. apply IHt. exact F.
+    - (* array *) cbn [sonic_bind]. destruct j; try discriminate.
       apply rbind_no_unk; [|discriminate]. apply bind_elems_no_unk. intros j' v'. apply IHt. exact F.
     - (* ptr *) cbn [sonic_bind]. destruct j; try discriminate; (apply rbind_no_unk; [apply IHt; exact F|discriminate]).
     - rewrite bind_any. apply any_no_unk.
@@ -355,7 +388,7 @@ Section Sim.
 
   Definition Chain (e : ty) : Prop :=
     forall P pre post, P = pre ++ (derefs e ++ one (leaf e) (length pre + length (derefs e))) ++ post ->
-    forall fuel s r, s_vt s = e -> valid (s_root s) (s_vp s) ->
+    forall fuel s r, s_vt s = e -> valid (s_root s) (s_vp s) -> shape e (cur s) ->
       (forall rest, PV o (s_in s) (JNull, rest) -> False) ->
       ex fuel P ((derefs e ++ one (leaf e) (length pre + length (derefs e))) ++ post) s = r -> r <> Unk ->
       spec e P post fuel s r.
@@ -363,10 +396,10 @@ Section Sim.
   Lemma chain_all : forall e, Sim (leaf e) -> Chain e.
   Proof.
     induction e; intros SL;
-      try (intros P pre post EP fuel s r VT V NN H NU; cbn [derefs leaf app length] in *; rewrite Nat.add_0_r in *;
+      try (intros P pre post EP fuel s r VT V SH NN H NU; cbn [derefs leaf app length] in *; rewrite Nat.add_0_r in *;
            eapply SL; eauto).
     (* TPtr e *)
-    intros P pre post EP fuel s r VT V NN H NU. cbn [derefs leaf app length] in *.
+    intros P pre post EP fuel s r VT V SH NN H NU. cbn [derefs leaf app length] in *.
     specialize (IHe SL).
     destruct fuel as [|fuel]; [simpl in H; congruence|]. rewrite x_deref in H.
     set (v0 := match cur s with VPtr y => y | _ => zero e end).
@@ -392,6 +425,8 @@ Section Sim.
     { unfold cur. rewrite VP1, getp_app, G1. reflexivity. }
     assert (VAL1 : valid (s_root s1) (s_vp s1)).
     { rewrite VP1. apply valid_app. split; [exact V1|]. rewrite G1. simpl. exact Logic.I. }
+    assert (SH1 : shape e (cur s1)).
+    { rewrite CUR1. unfold v0. destruct (cur s); try apply shape_zero. exact SH. }
     assert (SP : spec e P post fuel s1 r).
     { eapply (IHe P (pre ++ [I OP_deref 0 0 e]) post); eauto.
       - rewrite EP. rewrite app_length. cbn [length].
@@ -413,7 +448,7 @@ Section Sim.
 
   Lemma Sim_ptr : forall e0, Sim (leaf e0) -> Sim (TPtr e0).
   Proof.
-    intros e0 SL P pre post EP fuel s r VT V H NU. unfold one in H, EP. rewrite code_ptr in H, EP.
+    intros e0 SL P pre post EP fuel s r VT V SH H NU. unfold one in H, EP. rewrite code_ptr in H, EP.
     remember (I OP_deref 0 0 e0 :: dcode e0 (S (length pre) + 2)) as D eqn:ED.
     assert (LD : length D = S (length (dcode e0 (S (length pre) + 2)))) by (subst D; reflexivity).
     rewrite <- LD in H, EP.
@@ -444,6 +479,7 @@ Section Sim.
         rewrite !app_length. cbn [app length]. reflexivity.
       + exact VT.
       + exact V.
+      + exact SH.
       + cbn [adv s_in]. intros rest PVn. destruct (I_null o _ _ _ W' _ PVn) as [S' _]. congruence.
       + rewrite <- Hx. f_equal. rewrite DS at 1. rewrite <- !app_assoc. rewrite !app_length. cbn [app length]. reflexivity.
       + exact NU.
@@ -459,7 +495,7 @@ Section Sim.
     P = preE ++ (I OP_slice_append 0 0 e :: one e B) ++ (I OP_load 0 0 TBool :: postE) ->
     forall fuel s r root0 vp news hid stk0,
       s_vp s = vp -> s_stk s = (vp, TSlice e) :: stk0 -> valid root0 vp ->
-      s_root s = setp root0 vp (VList news hid) ->
+      s_root s = setp root0 vp (VList news hid) -> Forall (shape e) hid ->
       ex fuel P ((I OP_slice_append 0 0 e :: one e B) ++ I OP_load 0 0 TBool :: postE) s = r -> r <> Unk ->
       (forall j rest, PV o (s_in s) (j, rest) ->
          match bind e j (match hid with y :: _ => y | [] => zero e end) with
@@ -471,7 +507,7 @@ Section Sim.
          end) /\
       (NPV o (s_in s) -> r = Err).
   Proof.
-    intros e SE P preE postE B EB EP fuel s r root0 vp news hid stk0 VP STK V ROOT H NU.
+    intros e SE P preE postE B EB EP fuel s r root0 vp news hid stk0 VP STK V ROOT FH H NU.
     set (cur0 := match hid with y :: _ => y | [] => zero e end).
     cbn [app] in H.
     destruct fuel as [|fuel]; [simpl in H; congruence|].
@@ -489,6 +525,8 @@ Section Sim.
     assert (C1 : cur s1 = cur0).
     { unfold cur. rewrite R1. unfold s1. cbn [mv s_vp]. rewrite VP, getp_app, getp_setp by exact V.
       unfold A. simpl. rewrite app_nth1 by exact K. apply nth_middle. }
+    assert (SH1 : shape e (cur s1)).
+    { rewrite C1. unfold cur0. destruct hid; [apply shape_zero|]. inversion FH; assumption. }
     assert (SP : spec e P (I OP_load 0 0 TBool :: postE) fuel s1 r).
     { eapply (SE P (preE ++ [I OP_slice_append 0 0 e]) (I OP_load 0 0 TBool :: postE)); eauto.
       - rewrite EP, app_length. cbn [length]. rewrite Nat.add_1_r, <- EB. lnorm. reflexivity.
@@ -538,7 +576,7 @@ Section Sim.
     skipn END P = post ->
     forall fuel s r root0 vp news hid stk0,
       s_vp s = vp -> s_stk s = (vp, TSlice e) :: stk0 -> valid root0 vp ->
-      s_root s = setp root0 vp (VList news hid) ->
+      s_root s = setp root0 vp (VList news hid) -> Forall (shape e) hid ->
       ex fuel P (loop_code e DROP B2 k0 END post) s = r -> r <> Unk ->
       (forall l rest, PT (s_in s) (l, rest) ->
          match bind_elems (bind e) (zero e) l hid with
@@ -554,7 +592,8 @@ Section Sim.
     assert (JK : skipn k0 P = loop_code e DROP B2 k0 END post).
     { rewrite EP. apply (skipn_at _ preL); [reflexivity|auto]. }
     induction fuel as [fuel IH] using lt_wf_ind.
-    intros s r root0 vp news hid stk0 VP STK V ROOT H NU.
+    intros s r root0 vp news hid stk0 VP STK V ROOT FH H NU.
+    assert (FT : Forall (shape e) (tl hid)) by (destruct hid; [constructor|inversion FH; assumption]).
     unfold loop_code in H. cbn [app] in H.
     destruct fuel as [|fuel]; [simpl in H; congruence|].
     destruct (skip_ws (s_in s)) as [|c r'] eqn:W.
@@ -591,7 +630,7 @@ Section Sim.
                 (I OP_goto k0 0 TBool :: I OP_drop 0 0 TBool :: I OP_goto END 0 TBool :: I OP_nil_3 0 0 TBool :: post) B2
                 ltac:(rewrite app_length; cbn [length]; lia)
                 ltac:(rewrite EP; unfold loop_code; lnorm; reflexivity)
-                fuel s2 r root0 vp news hid stk0 VP STK V ROOT H NU) as [EA EBn].
+                fuel s2 r root0 vp news hid stk0 VP STK V ROOT FH H NU) as [EA EBn].
     assert (NEXT : forall v r1 x, PV o r' (v, r1) -> bind e v (match hid with y :: _ => y | [] => zero e end) = Ok x ->
               exists f2 s3, (f2 < S (S (S fuel)))%nat /\ ex f2 P (loop_code e DROP B2 k0 END post) s3 = r /\ s_in s3 = r1 /\
                 s_root s3 = setp root0 vp (VList (news ++ [x]) (tl hid)) /\ s_vp s3 = vp /\
@@ -608,7 +647,7 @@ Section Sim.
       pose proof (EA v r1 PVx) as EAv.
       destruct (bind e v (match hid with y :: _ => y | [] => zero e end)) as [x| |] eqn:Bx; cbn [rbind]; auto.
       destruct (NEXT v r1 x PVx Bx) as (f2 & s3 & L2 & E2 & I3 & R3 & VP3 & K3 & M3).
-      destruct (IH f2 L2 s3 r root0 vp (news ++ [x]) (tl hid) stk0 VP3 K3 V R3 E2 NU) as [IA _].
+      destruct (IH f2 L2 s3 r root0 vp (news ++ [x]) (tl hid) stk0 VP3 K3 V R3 FT E2 NU) as [IA _].
       rewrite <- I3 in PTx. specialize (IA l' rest PTx).
       destruct (bind_elems (bind e) (zero e) l' (tl hid)) as [vs| |]; cbn [rbind]; auto.
       destruct IA as (f4 & s4 & L4 & E4 & I4 & R4 & K4 & M4).
@@ -619,7 +658,7 @@ Section Sim.
       destruct (bind e v (match hid with y :: _ => y | [] => zero e end)) as [x| |] eqn:Bx; auto.
       2:{ exfalso. eapply bind_no_unk; eauto. }
       destruct (NEXT v r1 x PVx Bx) as (f2 & s3 & L2 & E2 & I3 & R3 & VP3 & K3 & M3).
-      destruct (IH f2 L2 s3 r root0 vp (news ++ [x]) (tl hid) stk0 VP3 K3 V R3 E2 NU) as [_ IB].
+      destruct (IH f2 L2 s3 r root0 vp (news ++ [x]) (tl hid) stk0 VP3 K3 V R3 FT E2 NU) as [_ IB].
       apply IB. intros [l' rest] PTx. rewrite I3 in PTx. eapply (N (v :: l', rest)).
       exists 44, r'. split; [exact W|]. left. split; [reflexivity|]. eapply PE_of_PT; eauto.
   Qed.
@@ -650,7 +689,7 @@ Section Sim.
 
   Lemma Sim_slice : forall e, Sim e -> simf e = true -> Sim (TSlice e).
   Proof.
-    intros e SE FE P pre post EP fuel s r VT V H NU. unfold one in H, EP. rewrite code_slice in H, EP.
+    intros e SE FE P pre post EP fuel s r VT V SH H NU. unfold one in H, EP. rewrite code_slice in H, EP.
     remember (S (length pre)) as b0 eqn:Eb0.
     remember (S (clen e)) as L eqn:EL.
     remember (one e (b0 + 10)) as O1 eqn:EO1.
@@ -734,6 +773,9 @@ Section Sim.
       eexists fuel', _. split; [lia|]. split; [exact Hx|]. repeat split. }
     (* at least one element *)
     set (old := match cur s with VList vis hid => vis ++ hid | _ => [] end).
+    assert (FO : Forall (shape e) old).
+    { unfold old. cbn [shape] in SH. destruct (cur s); try constructor. exact SH. }
+    assert (FOT : Forall (shape e) (tl old)) by (destruct old; [constructor|inversion FO; assumption]).
     destruct fuel' as [|fuel']; [simpl in Hx; congruence|]. rewrite x_slice_init in Hx.
     set (sa := adv (adv (adv s (91 :: r0)) r0) (d :: r2)) in *.
     assert (Hx' : ex fuel' P (I OP_save 0 0 TBool :: (I OP_slice_append 0 0 e :: O1) ++ I OP_load 0 0 TBool :: loop_code e DROP B2 k0 END post)
@@ -751,7 +793,7 @@ Section Sim.
                 (loop_code e DROP B2 k0 END post) (b0 + 10)%nat
                 ltac:(rewrite app_length; cbn [length]; lia)
                 ltac:(rewrite EP, EO1; lnorm; reflexivity)
-                fuel' s4 r (s_root s) (s_vp s) [] old (s_stk s) eq_refl eq_refl V eq_refl
+                fuel' s4 r (s_root s) (s_vp s) [] old (s_stk s) eq_refl eq_refl V eq_refl FO
                 ltac:(rewrite <- EO1; exact Hx') NU) as [EA EBn].
     cbn [s4 s_in s_stk s_mis app] in EA, EBn.
     assert (NEXT : forall v r1 x, PV o (d :: r2) (v, r1) -> bind e v (match old with y :: _ => y | [] => zero e end) = Ok x ->
@@ -773,7 +815,7 @@ Section Sim.
                   ltac:(repeat (rewrite app_length; cbn [length]); rewrite LO1; unfold k0; lia)
                   ltac:(unfold B2, k0; lia)
                   ltac:(rewrite EP; lnorm; reflexivity) JD JE
-                  f' s' r (s_root s) (s_vp s) [x] (tl old) (s_stk s) VP' K1 V Rt E NU) as [LA LB].
+                  f' s' r (s_root s) (s_vp s) [x] (tl old) (s_stk s) VP' K1 V Rt FOT E NU) as [LA LB].
       split.
       - intros l rest PTx. rewrite <- I1 in PTx. specialize (LA l rest PTx).
         destruct (bind_elems (bind e) (zero e) l (tl old)) as [vs| |]; auto.
@@ -797,5 +839,284 @@ Section Sim.
       2:{ exfalso. eapply bind_no_unk; eauto. }
       destruct (NEXT v r1 x PVx Bx) as [_ NB]. apply NB. intros [l' rest] PTx.
       eapply PV_NPV; [|exact N]. eapply F_arr; eauto. eapply PE_of_PT; eauto.
+  Qed.
+
+  (* ---- fixed arrays ---- *)
+  Lemma pad_to_full : forall n z l, length l = n -> pad_to n z l = l.
+  Proof. induction n as [|n IH]; intros z l H; destruct l; simpl in *; try discriminate; [reflexivity|]. rewrite IH by lia. reflexivity. Qed.
+
+  Lemma nth_set_middle : forall A (l : list A) x y r, nth_set (l ++ x :: r) (length l) y = l ++ y :: r.
+  Proof. induction l as [|z l IH]; intros; simpl; [reflexivity|]. rewrite IH. reflexivity. Qed.
+
+  Lemma firstn_middle : forall A (l : list A) x r, firstn (S (length l)) (l ++ x :: r) = l ++ [x].
+  Proof. induction l as [|z l IH]; intros; [reflexivity|]. cbn [length app]. change (firstn (S (S (length l))) (z :: l ++ x :: r)) with (z :: firstn (S (length l)) (l ++ x :: r)). rewrite IH. reflexivity. Qed.
+
+  Definition arr_tail (e : ty) (DROP : nat) (post : prog) : prog :=
+    I OP_array_skip 0 0 TBool :: I OP_goto DROP 0 TBool :: I OP_array_clear 0 0 e :: I OP_drop 0 0 TBool :: post.
+
+  Lemma items : forall e, Sim e -> simf e = true -> forall n P post CLR DROP,
+    skipn CLR P = I OP_array_clear 0 0 e :: I OP_drop 0 0 TBool :: post ->
+    skipn DROP P = I OP_drop 0 0 TBool :: post ->
+    forall k preK, (k <= n)%nat ->
+    P = preK ++ icode (code e) (S (clen e)) CLR n k (length preK) ++ arr_tail e DROP post ->
+    forall fuel s r root0 ap news olds stk0,
+      s_vp s = ap ++ [PElem (n - k)] -> s_vt s = e -> s_stk s = (ap, TArr n e) :: stk0 -> valid root0 ap ->
+      length news = (n - k)%nat -> length olds = k -> Forall (shape e) olds ->
+      s_root s = setp root0 ap (VList (news ++ olds) []) ->
+      ex fuel P (icode (code e) (S (clen e)) CLR n k (length preK) ++ arr_tail e DROP post) s = r -> r <> Unk ->
+      (forall l rest, PE o (s_in s) (l, rest) ->
+         match bind_elems (bind e) (zero e) (firstn k l) olds with
+         | Unk => True
+         | Err => r = Err
+         | Ok vs => exists fuel' s', (fuel' <= fuel)%nat /\ ex fuel' P post s' = r /\ s_in s' = rest /\
+                      s_root s' = setp root0 ap (VList (pad_to n (zero e) (news ++ vs)) []) /\
+                      s_stk s' = stk0 /\ s_mis s' = s_mis s
+         end) /\
+      (NPE o (s_in s) -> r = Err).
+  Proof.
+    intros e SE FE n P post CLR DROP JC JD.
+    induction k as [|k IH]; intros preK KN EP fuel s r root0 ap news olds stk0 VP VT STK V LN LO FO ROOT H NU.
+    - (* all n elements decoded: the rest is skipped *)
+      cbn [icode app] in H. unfold arr_tail in H.
+      destruct olds; [|discriminate LO]. rewrite app_nil_r in ROOT. rewrite Nat.sub_0_r in *.
+      destruct fuel as [|fuel]; [simpl in H; congruence|]. rewrite x_array_skip in H.
+      destruct (skip_ws (s_in s)) as [|c0 r0] eqn:W.
+      { subst r. split; [|reflexivity]. intros l rest PEx. destruct (PE_inv o _ _ _ PEx) as (v & r1 & PVx & _).
+        exfalso. eapply PV_NPV; [exact PVx|apply NPV_ws; exact W]. }
+      assert (WC : is_ws c0 = false) by (eapply skip_ws_head; exact W).
+      destruct (c0 =? 93) eqn:C93.
+      { subst r. split; [|reflexivity]. intros l rest PEx. destruct (PE_inv o _ _ _ PEx) as (v & r1 & PVx & _).
+        exfalso. eapply PV_NPV; [exact PVx|]. apply N.eqb_eq in C93. subst c0. eapply NPV_close; exact W. }
+      destruct (ctl && negb _) eqn:VS; [congruence|]. clear VS.
+      pose proof (skip_rest o c0 r0 WC C93) as SR.
+      assert (PES : forall x, PE o (s_in s) x <-> PE o (c0 :: r0) x).
+      { intros x. unfold PE. split; intros [f E]; exists f.
+        - destruct f as [|f]; [discriminate|]. simpl in *. rewrite <- pvalue_skip, W in E. rewrite <- (pvalue_skip o f (c0 :: r0)), (skip_ws_nows c0 r0 WC). exact E.
+        - destruct f as [|f]; [discriminate|]. simpl in *. rewrite <- pvalue_skip, W. rewrite <- (pvalue_skip o f (c0 :: r0)), (skip_ws_nows c0 r0 WC) in E. exact E. }
+      destruct (pvalue (parse_fuel (c0 :: r0)) ctl (91 :: c0 :: r0)) as [[j rq]|] eqn:PVr.
+      + destruct fuel as [|fuel]; [simpl in H; congruence|]. rewrite x_goto, JD in H.
+        destruct fuel as [|fuel]; [simpl in H; congruence|].
+        erewrite x_drop in H by (cbn [adv s_stk]; exact STK). cbn [adv s_in s_root s_sr s_mis] in H.
+        split.
+        * intros l rest PEx. cbn [firstn bind_elems]. apply PES in PEx.
+          pose proof (skip_rest_det o _ _ _ _ _ _ WC C93 PVr PEx) as ER. subst rq.
+          eexists fuel, _. split; [lia|]. split; [exact H|]. cbn [s_in s_root s_stk s_mis].
+          rewrite app_nil_r, pad_to_full by exact LN. repeat split. exact ROOT.
+        * intros N. exfalso. destruct SR as [l PEx]. apply PES in PEx. destruct PEx as [f E]. rewrite N in E. discriminate.
+      + subst r. split; [|reflexivity]. intros l rest PEx. apply PES in PEx. destruct PEx as [f E]. rewrite SR in E. discriminate.
+    - (* one more element *)
+      cbn [icode] in H, EP.
+      destruct olds as [|o1 olds']; [discriminate LO|]. simpl in LO. injection LO as LO.
+      assert (IDX : (S (n - S k) = n - k)%nat) by lia.
+      set (i := (n - S k)%nat) in *.
+      set (item_tail := [I OP_load 0 0 TBool; I OP_index (S i) 0 TBool; I OP_lspace 0 0 TBool; I OP_check_char CLR 93 TBool; I OP_match_char 0 44 TBool]) in *.
+      assert (CUR : cur s = o1).
+      { unfold cur. rewrite ROOT, VP, getp_app, getp_setp by exact V. simpl. rewrite app_nil_r, <- LN. apply nth_middle. }
+      assert (VS : valid (s_root s) (s_vp s)).
+      { rewrite ROOT, VP. apply valid_app. split; [apply valid_setp; exact V|]. rewrite getp_setp by exact V. simpl.
+        split; [rewrite app_nil_r, app_length; simpl; lia|exact Logic.I]. }
+      assert (SH : shape e (cur s)) by (rewrite CUR; inversion FO; assumption).
+      assert (FO' : Forall (shape e) olds') by (inversion FO; assumption).
+      assert (SP : spec e P (item_tail ++ icode (code e) (S (clen e)) CLR n k (length preK + S (clen e) + 5) ++ arr_tail e DROP post) fuel s r).
+      { eapply (SE P preK); eauto.
+        - rewrite EP. unfold one. lnorm. reflexivity.
+        - unfold one. rewrite <- H. lnorm. reflexivity. }
+      destruct SP as [SA SB].
+      (* after the element: load; index; lspace; `]` or `,` *)
+      assert (NEXT : forall v r1 x, PV o (s_in s) (v, r1) -> bind e v o1 = Ok x ->
+                (forall l' rest, PT r1 (l', rest) ->
+                   match bind_elems (bind e) (zero e) (firstn k l') olds' with
+                   | Unk => True
+                   | Err => r = Err
+                   | Ok vs => exists fuel' s', (fuel' <= fuel)%nat /\ ex fuel' P post s' = r /\ s_in s' = rest /\
+                                s_root s' = setp root0 ap (VList (pad_to n (zero e) (news ++ x :: vs)) []) /\
+                                s_stk s' = stk0 /\ s_mis s' = s_mis s
+                   end) /\
+                ((forall y, PT r1 y -> False) -> r = Err)).
+      { intros v r1 x PVx Bx. specialize (SA v r1 PVx). rewrite CUR, Bx in SA.
+        destruct SA as (f1 & s1 & L1 & E1 & I1 & R1 & K1 & M1). unfold item_tail in E1. cbn [app] in E1.
+        assert (R1' : s_root s1 = setp root0 ap (VList (news ++ x :: olds') [])).
+        { rewrite R1, ROOT, VP. rewrite setp_setp_ext by exact V. f_equal. simpl.
+          assert (LT : Nat.ltb i (length (news ++ o1 :: olds')) = true) by (apply Nat.ltb_lt; rewrite app_length; simpl; lia).
+          rewrite LT. rewrite <- LN. rewrite nth_set_middle. reflexivity. }
+        destruct f1 as [|f1]; [simpl in E1; congruence|].
+        erewrite x_load in E1 by (rewrite K1; exact STK).
+        destruct f1 as [|f1]; [simpl in E1; congruence|].
+        erewrite x_index_arr in E1 by reflexivity. cbn [mv s_vp s_in] in E1.
+        destruct f1 as [|f1]; [simpl in E1; congruence|].
+        destruct (skip_ws r1) as [|c r'] eqn:W1.
+        { rewrite x_lspace_nil in E1 by (cbn [mv s_in]; rewrite I1; exact W1). split; [|congruence].
+          intros l' rest (c & r' & W' & _). congruence. }
+        erewrite x_lspace in E1 by (cbn [mv s_in]; rewrite I1; exact W1).
+        destruct f1 as [|f1]; [simpl in E1; congruence|].
+        erewrite x_check_char in E1 by reflexivity.
+        destruct (c =? 93) eqn:C93.
+        { (* the array ends here: clear the rest *)
+          apply N.eqb_eq in C93. subst c. rewrite JC in E1.
+          destruct f1 as [|f1]; [simpl in E1; congruence|].
+          erewrite (x_array_clear h o _ _ _ _ _ _ _ ap n e stk0 (S i) (news ++ x :: olds') []) in E1;
+            [|cbn [adv mv s_stk]; rewrite K1; exact STK|reflexivity|cbn [adv mv s_root]; rewrite R1'; apply getp_setp; exact V].
+          destruct f1 as [|f1]; [simpl in E1; congruence|].
+          erewrite x_drop in E1 by (cbn [adv mv s_stk]; rewrite K1; exact STK).
+          cbn [adv mv s_in s_root s_sr s_mis] in E1.
+          split.
+          - intros l' rest (c & r'' & W' & D). rewrite W1 in W'. injection W' as <- <-.
+            destruct D as [[C _]|[_ E]]; [discriminate C|]. injection E as -> ->.
+            destruct k; cbn [firstn bind_elems].
+            + eexists f1, _. split; [lia|]. split; [exact E1|]. cbn [s_in s_root s_stk s_mis].
+              split; [reflexivity|]. split; [|split; [reflexivity|exact M1]].
+              rewrite R1'. rewrite setp_setp by exact V. f_equal. f_equal. rewrite <- LN. rewrite firstn_middle. reflexivity.
+            + eexists f1, _. split; [lia|]. split; [exact E1|]. cbn [s_in s_root s_stk s_mis].
+              split; [reflexivity|]. split; [|split; [reflexivity|exact M1]].
+              rewrite R1'. rewrite setp_setp by exact V. f_equal. f_equal. rewrite <- LN. rewrite firstn_middle. reflexivity.
+          - intros N. exfalso. eapply (N ([], r')). exists 93, r'. split; [exact W1|]. right. auto. }
+        destruct f1 as [|f1]; [simpl in E1; congruence|].
+        erewrite x_match_char in E1 by reflexivity. cbn [adv s_in] in E1.
+        destruct (c =? 44) eqn:C44.
+        2:{ split; [|congruence]. intros l' rest (c1 & r'' & W' & D). rewrite W1 in W'. injection W' as <- <-.
+            destruct D as [[C _]|[C _]]; subst c; discriminate. }
+        apply N.eqb_eq in C44. subst c.
+        match type of E1 with ex _ _ _ ?S2 = _ => set (s2 := S2) in * end.
+        assert (LK : length (preK ++ one e (length preK) ++ item_tail) = (length preK + S (clen e) + 5)%nat).
+        { unfold one, item_tail. repeat (rewrite !app_length; cbn [length]). rewrite code_len. lia. }
+        assert (EP' : P = (preK ++ one e (length preK) ++ item_tail) ++
+                          icode (code e) (S (clen e)) CLR n k (length (preK ++ one e (length preK) ++ item_tail)) ++ arr_tail e DROP post).
+        { rewrite LK, EP. unfold one. lnorm. reflexivity. }
+        assert (KN' : (k <= n)%nat) by lia.
+        destruct (IH (preK ++ one e (length preK) ++ item_tail) KN' EP'
+                    f1 s2 r root0 ap (news ++ [x]) olds' stk0) as [IA IB]; try assumption.
+        + unfold s2. cbn [adv mv s_vp]. rewrite IDX. reflexivity.
+        + reflexivity.
+        + unfold s2. cbn [adv mv s_stk]. rewrite K1. exact STK.
+        + rewrite app_length. simpl. lia.
+        + unfold s2. cbn [adv mv s_root]. rewrite R1'. rewrite <- app_assoc. reflexivity.
+        + rewrite LK. exact E1.
+        + split.
+          * intros l' rest (c & r'' & W' & D). rewrite W1 in W'. injection W' as <- <-.
+            destruct D as [[_ PEx]|[C _]]; [|discriminate C].
+            specialize (IA l' rest PEx). destruct (bind_elems (bind e) (zero e) (firstn k l') olds') as [vs| |]; auto.
+            destruct IA as (f4 & s4 & L4 & E4 & I4 & R4 & K4 & M4).
+            exists f4, s4. split; [lia|]. split; [exact E4|]. split; [exact I4|].
+            split; [rewrite R4, <- app_assoc; reflexivity|]. split; [exact K4|]. rewrite M4. unfold s2. cbn [adv mv s_mis]. exact M1.
+          * intros N. apply IB. unfold NPE, s2. cbn [adv s_in]. intros f. destruct (pelems f ctl r' []) as [[l' rest]|] eqn:E; [|reflexivity].
+            exfalso. eapply (N (l', rest)). exists 44, r'. split; [exact W1|]. left. split; [reflexivity|]. exists f. exact E. }
+      split.
+      + intros l rest PEx. destruct (PE_inv' _ _ _ PEx) as (v & r1 & l' & PVx & El & PTx). subst l. cbn [firstn bind_elems tl].
+        pose proof (SA v r1 PVx) as SAv. rewrite CUR in SAv.
+        destruct (bind e v o1) as [x| |] eqn:Bx; cbn [rbind]; auto.
+        destruct (NEXT v r1 x PVx Bx) as [NA _]. specialize (NA l' rest PTx).
+        destruct (bind_elems (bind e) (zero e) (firstn k l') olds') as [vs| |]; cbn [rbind]; auto.
+      + intros N. destruct (PV_dec o (s_in s)) as [[[v r1] PVx]|NP]; [|apply SB; exact NP].
+        pose proof (SA v r1 PVx) as SAv. rewrite CUR in SAv.
+        destruct (bind e v o1) as [x| |] eqn:Bx; auto.
+        2:{ exfalso. eapply bind_no_unk; eauto. }
+        destruct (NEXT v r1 x PVx Bx) as [_ NB]. apply NB. intros [l' rest] PTx.
+        destruct (PE_of_PT _ _ _ _ _ PVx PTx) as [f E]. rewrite N in E. discriminate.
+  Qed.
+
+  Lemma bind_arr : forall n e raw l v,
+    bind (TArr n e) (JArr raw l) v =
+    (do news <- bind_elems (bind e) (zero e) (firstn n l) (match v with VList vis _ => vis | _ => [] end);
+     Ok (VList (pad_to n (zero e) news) [])).
+  Proof. reflexivity. Qed.
+
+  Lemma Sim_arr : forall n e, Sim e -> simf e = true -> Sim (TArr n e).
+  Proof.
+    intros n e SE FE P pre post EP fuel s r VT V SH H NU. unfold one in H, EP. cbn [code] in H, EP.
+    remember (S (length pre)) as b0 eqn:Eb0.
+    remember (S (clen e)) as L eqn:EL.
+    set (CLR := (b0 + 8 + n * (L + 5) + 2)%nat) in *.
+    assert (LI : forall T k b, length (icode (code e) L T n k b) = (k * (L + 5))%nat).
+    { intros. apply icode_len. intros b'. rewrite code_len. subst L. reflexivity. }
+    repeat (cbn [app] in H, EP; rewrite <- ?app_assoc in H, EP).
+    change (I OP_array_skip 0 0 TBool :: I OP_goto (CLR + 1) 0 TBool :: I OP_array_clear 0 0 e :: I OP_drop 0 0 TBool :: post)
+      with (arr_tail e (CLR + 1) post) in H, EP.
+    (* the shape of the destination *)
+    cbn [shape] in SH. destruct (cur s) as [| | | | | |vis hid| |] eqn:CUR; try contradiction.
+    destruct SH as (LV & HH & FV). subst hid.
+    (* jump targets *)
+    assert (JC : skipn CLR P = I OP_array_clear 0 0 e :: I OP_drop 0 0 TBool :: post).
+    { rewrite EP. unfold arr_tail.
+      match goal with |- skipn _ (pre ++ ?X) = _ =>
+        apply (skipn_at _ (pre ++ firstn 9 X ++ icode (code e) L CLR n n (b0 + 8) ++ [I OP_array_skip 0 0 TBool; I OP_goto (CLR + 1) 0 TBool])) end.
+      - cbn [firstn]. lnorm. reflexivity.
+      - cbn [firstn]. repeat (rewrite app_length; cbn [length]). rewrite LI. unfold CLR. lia. }
+    assert (JD : skipn (CLR + 1) P = I OP_drop 0 0 TBool :: post).
+    { rewrite EP. unfold arr_tail.
+      match goal with |- skipn _ (pre ++ ?X) = _ =>
+        apply (skipn_at _ (pre ++ firstn 9 X ++ icode (code e) L CLR n n (b0 + 8) ++
+                           [I OP_array_skip 0 0 TBool; I OP_goto (CLR + 1) 0 TBool; I OP_array_clear 0 0 e])) end.
+      - cbn [firstn]. lnorm. reflexivity.
+      - cbn [firstn]. repeat (rewrite app_length; cbn [length]). rewrite LI. unfold CLR. lia. }
+    assert (JE : skipn (CLR + 2) P = post).
+    { rewrite EP. unfold arr_tail.
+      match goal with |- skipn _ (pre ++ ?X) = _ =>
+        apply (skipn_at _ (pre ++ firstn 9 X ++ icode (code e) L CLR n n (b0 + 8) ++
+                           [I OP_array_skip 0 0 TBool; I OP_goto (CLR + 1) 0 TBool; I OP_array_clear 0 0 e; I OP_drop 0 0 TBool])) end.
+      - cbn [firstn]. lnorm. reflexivity.
+      - cbn [firstn]. repeat (rewrite app_length; cbn [length]). rewrite LI. unfold CLR. lia. }
+    assert (J4 : skipn (b0 + 4) P =
+                 I OP_add 1 0 TBool :: I OP_save 0 0 TBool :: I OP_lspace 0 0 TBool :: I OP_check_char CLR 93 TBool ::
+                 icode (code e) L CLR n n (b0 + 8) ++ arr_tail e (CLR + 1) post).
+    { rewrite EP. match goal with |- skipn _ (pre ++ ?X) = _ => apply (skipn_at _ (pre ++ firstn 5 X)) end.
+      - cbn [firstn]. lnorm. reflexivity.
+      - cbn [firstn]. rewrite app_length. cbn [length]. lia. }
+    destruct (head _ _ _ _ _ _ H NU) as [[W E]|(c & r0 & fuel' & W & LE & [[SN Hx]|[SN Hx]])]; clear H.
+    { subst r. apply spec_ws_nil. exact W. }
+    { rewrite JE in Hx. eapply spec_null_same; eauto. }
+    destruct fuel' as [|fuel']; [simpl in Hx; congruence|].
+    erewrite x_check_char_0 in Hx by reflexivity.
+    destruct (c =? 91) eqn:C91.
+    2:{ destruct fuel' as [|[|fuel']]; [simpl in Hx; congruence|simpl in Hx; congruence|]. rewrite x_dismatch_go_skip in Hx.
+        subst r. apply spec_err. intros j rest x PVj B.
+        destruct j; cbn [sonic_bind] in B; try discriminate B.
+        - destruct (I_null o _ _ _ W _ PVj) as [S' _]. congruence.
+        - pose proof (I_arr o _ _ _ W _ _ _ PVj) as E. subst c. discriminate C91. }
+    apply N.eqb_eq in C91. subst c. rewrite J4 in Hx.
+    destruct fuel' as [|fuel']; [simpl in Hx; congruence|]. rewrite x_add in Hx. cbn [adv s_in skipn] in Hx.
+    destruct fuel' as [|fuel']; [simpl in Hx; congruence|].
+    erewrite x_save_arr in Hx by (cbn [adv s_vt]; exact VT). cbn [adv s_in s_root s_vp s_stk s_sr s_mis] in Hx.
+    destruct fuel' as [|fuel']; [simpl in Hx; congruence|].
+    destruct (skip_ws r0) as [|d r2] eqn:W2.
+    { rewrite x_lspace_nil in Hx by exact W2. subst r. apply spec_err. intros j rest x PVj _.
+      eapply PV_NPV; [exact PVj|]. eapply NPV_arr_nil; eauto. }
+    erewrite x_lspace in Hx by exact W2. cbn [adv s_in] in Hx.
+    destruct fuel' as [|fuel']; [simpl in Hx; congruence|].
+    erewrite x_check_char in Hx by reflexivity. cbn [adv s_in] in Hx.
+    assert (GA : getp (s_root s) (s_vp s) = VList vis []) by exact CUR.
+    assert (ROOT : s_root s = setp (s_root s) (s_vp s) (VList ([] ++ vis) [])).
+    { cbn [app]. rewrite <- GA. symmetry. apply setp_getp. exact V. }
+    destruct (d =? 93) eqn:D93.
+    { (* [] : every element is cleared *)
+      apply N.eqb_eq in D93. subst d. rewrite JC in Hx.
+      destruct fuel' as [|fuel']; [simpl in Hx; congruence|].
+      erewrite (x_array_clear h o _ _ _ _ _ _ _ (s_vp s) n e (s_stk s) 0 vis []) in Hx; [|reflexivity|reflexivity|exact GA].
+      destruct fuel' as [|fuel']; [simpl in Hx; congruence|].
+      erewrite x_drop in Hx by reflexivity. cbn [s_in s_root s_sr s_mis] in Hx.
+      eapply spec_of_pv; [eapply F_arr_empty; eauto|]. rewrite bind_arr, CUR. cbn [firstn bind_elems rbind].
+      destruct n; cbn [firstn bind_elems rbind]; (eexists fuel', _; split; [lia|]; split; [exact Hx|]; repeat split). }
+    (* elements *)
+    match type of Hx with ex _ _ _ ?S4 = _ => set (s4 := S4) in * end.
+    destruct (items e SE FE n P post CLR (CLR + 1)%nat JC JD n
+                (pre ++ [I OP_lspace 0 0 TBool; I OP_is_null (CLR + 2) 0 TBool; I OP_check_char_0 (b0 + 4) 91 TBool;
+                         I OP_dismatch_err 0 0 TBool; I OP_go_skip (CLR + 2) 0 TBool; I OP_add 1 0 TBool; I OP_save 0 0 TBool;
+                         I OP_lspace 0 0 TBool; I OP_check_char CLR 93 TBool]) (le_n n)
+                ltac:(rewrite EP, app_length; cbn [length]; replace (length pre + 9)%nat with (b0 + 8)%nat by lia; subst L; lnorm; reflexivity)
+                fuel' s4 r (s_root s) (s_vp s) [] vis (s_stk s)) as [IA IB]; try assumption.
+    - unfold s4. cbn [s_vp]. rewrite Nat.sub_diag. reflexivity.
+    - reflexivity.
+    - reflexivity.
+    - rewrite Nat.sub_diag. reflexivity.
+    - rewrite app_length. cbn [length]. replace (length pre + 9)%nat with (b0 + 8)%nat by lia. subst L. exact Hx.
+    - cbn [s4 s_in s_mis] in IA, IB. split.
+      + intros j rest PVj.
+        destruct (I_arr91 o _ _ W _ _ PVj) as (d' & r2' & W2' & [(D & _)|(D & l & Ej & PEx)]);
+          rewrite W2 in W2'; injection W2' as <- <-; [congruence|]. subst j.
+        rewrite bind_arr, CUR. specialize (IA l rest PEx).
+        destruct (bind_elems (bind e) (zero e) (firstn n l) vis) as [vs| |]; cbn [rbind]; auto.
+        destruct IA as (f4 & s' & L4 & E4 & I4 & R4 & K4 & M4).
+        unfold exits. exists f4, s'. split; [lia|]. split; [exact E4|]. split; [exact I4|]. split; [exact R4|]. split; [exact K4|exact M4].
+      + intros N. apply IB. unfold NPE, s4. cbn [adv s_in]. intros f. destruct (pelems f ctl (d :: r2) []) as [[l rest]|] eqn:E; [|reflexivity].
+        exfalso. eapply PV_NPV; [|exact N]. eapply F_arr; eauto. exists f. exact E.
   Qed.
 End Sim.
